@@ -255,6 +255,10 @@ def step_oracle(obj, op, before_series, before_obs, exc, created, nonstrict_twin
             for other in index_before:
                 if other != name and after[other].tobytes() != before_series[other].tobytes():
                     out.append(('other-series-changed:%s' % kind, other, 'changed', 'assignment to one variable changed another'))
+    if exc is not None and strict and kind in ('setattr', 'setitem', 'replace1', 'setlabel', 'setslice') and name in index_before \
+            and nonstrict_twin_accepts is not None and nonstrict_twin_accepts():
+        out.append(('strict:existing-update-rejected:%s' % type(exc).__name__, 'accepted as without strict', type(exc).__name__,
+                    'updates of existing names must keep working under strict=True'))
     if kind in ('setitem', 'replace1', 'setlabel', 'setslice') and name not in index_before and exc is None:
         out.append(('unknown-name-accepted:%s' % kind, 'raises', 'accepted', 'item assignment to an unknown name must raise'))
     if kind in ('add_variable', 'add_variable_dtype'):
